@@ -79,6 +79,22 @@ CLAIMED["C03"] = dict(
     technique="Lean 4 proof (ripple/row invariants, all widths) + behavioural correspondence + exhaustive 8-bit tables",
 )
 
+CLAIMED["C09"] = dict(
+    text="Lean theorems C09_size and C09_roundtrip: for EVERY type (arbitrary nesting of arrays, tuples, structs, enums over all "
+         "primitive types) and every well-typed value, the documented layout encodes to exactly size(T) bits and decoding the bits "
+         "yields the value (mutual structural induction; integers via two's-complement round trip at every primitive width; enum "
+         "tags wide enough for every variant). PARTIAL: that Literal::is_of_type / as_bits / from_unwrapped_bits implement this "
+         "specification (C09_accept_safe_Statement) is not proved but checked by correspondence: random types x values x "
+         "{canonical literal, alternative spellings, one adversarial edit} through literal_arg, as_bits, parse_output, "
+         "Evaluator::set_literal + the identity program, against the Lean transliteration AND an independent Python specification. "
+         "The print/parse sentence is explored through the implementation only (no Lean model of the literal parser).",
+    design_ref="DESIGN.md §6 C09",
+    note="trusted: Lean kernel; axioms propext/Classical.choice/Quot.sound; Model/Value.lean (specification), Model/Literal.lean "
+         "(transliteration of literal.rs) tied by correspondence; the type expansion done by the harness (struct/enum definitions "
+         "inlined); the Python specification in tools/gv/gen_types.py",
+    technique="Lean 4 proof (mutual structural induction over types and values) + behavioural correspondence + adversarial literals",
+)
+
 NOT_YET = "not claimed yet: model/proof for this property is still being built in this session (see DESIGN.md §10 order of work)"
 
 
